@@ -396,11 +396,14 @@ theorem clean_keeps_refreshed (s : AbsState) (now ret : Int) (hk : Keyed s) (hin
   have := hinv k row hrow t hr
   exact (clean_complete s now ret hk).2.1 k row hrow (by omega)
 
-/-- **C14 (race theorem restated from an invariant-satisfying start).**  Start from any store with `RefInv` at clock
-`now`; let any use case `p` run there (completely, or stopped / faulted anywhere); then let a cleanup pass with retention
-`ret` run at any clock value `now'`.  Every server whose record, after `p`, carries a refresh time after the
-cutoff `now' − ret` — in particular the one a heartbeat, keepalive or successful probe just refreshed — is still stored,
-unchanged, after the pass.  No per-row hypothesis is left: `refreshedAt ≤ updatedAt` is derived. -/
+/-- **C14 (a refresh BEFORE the pass is respected — a sequential statement, not a race).**  Start from any store with
+`RefInv` at clock `now`; let any use case `p` run there first (completely, or stopped / faulted anywhere); only THEN,
+after `p` has ended, let a whole cleanup pass with retention `ret` run, uninterrupted, at any clock value `now'`.  Every
+server whose record, after `p`, carries a refresh time after the cutoff `now' − ret` — in particular the one a
+heartbeat, keepalive or successful probe just refreshed — is still stored, unchanged, after the pass.  No per-row
+hypothesis is left: `refreshedAt ≤ updatedAt` is derived.  Nothing is interleaved here: `p` and the pass run one after
+the other.  The interleaved statement (a refresh landing BETWEEN the pass's scan and its delete) is `clean_race_run`
+(and `clean_race_run_lazy`) below, over the storage-command-granular `cleanServers2`. -/
 theorem refreshed_survives_pass {α : Type} (p : Prog α) (now now' ret : Int) (hp : RowInv.Pres now (refRow now) p)
     (s : AbsState) (h : RefInv s now) (cs : List Choice) (k : Nat) (row : SRow) (t : Int) :
     (((p.run s now).1.servers[k]? = some row → row.svr.refreshedAt = some t → t > now' - ret →
